@@ -434,6 +434,54 @@ pub fn main(args: &Args) -> ! {
             }
         }
     }
+    // the reuse log while it turns from an exact set into a bloom filter: for small logs (conversion
+    // on the 4th / 8th / 15th token, one hash function so that fingerprints may collide) and every
+    // nonce set of a family (arithmetic progressions and SplitMix64 sequences over a grid of seeds), all tokens are used once, then presented again:
+    // none may be accepted a second time (false rejections are allowed, false acceptances are not)
+    {
+        use proto::TokenLog;
+        let t0 = std::time::UNIX_EPOCH + Duration::from_secs(2_000_000);
+        let life = Duration::from_secs(100);
+        let mut logs = 0u64;
+        let mut collisions = 0u64;
+        let mut first: Option<String> = None;
+        for (max_bytes, n) in [(64usize, 5u128), (112, 9), (224, 16), (224, 28)] {
+            for base in 0..(if thorough { 400u128 } else { 120 }) {
+                for stride in [1u128, 3, 7, 64, 257, 4099, 65_537, 1 << 32] {
+                    logs += 1;
+                    let log = proto::BloomTokenLog::new(max_bytes, 1);
+                    // (progressions for the small strides; for the others the stride seeds a SplitMix64
+                    // sequence: token nonces are uniformly random in reality)
+                    let nonces: Vec<u128> = if stride < 64 {
+                        (0..n).map(|i| base * 1_000_003 + i * stride + 1).collect()
+                    } else {
+                        let mut x = (base as u64).wrapping_mul(0x9e37_79b9_7f4a_7c15) ^ (stride as u64);
+                        (0..n).map(|_| {
+                            x = x.wrapping_add(0x9e37_79b9_7f4a_7c15);
+                            let mut z = x;
+                            z = (z ^ (z >> 30)).wrapping_mul(0xbf58_476d_1ce4_e5b9);
+                            z = (z ^ (z >> 27)).wrapping_mul(0x94d0_49bb_1331_11eb);
+                            (z ^ (z >> 31)) as u128
+                        }).collect()
+                    };
+                    for x in &nonces {
+                        if log.check_and_insert(*x, t0, life).is_err() {
+                            collisions += 1;
+                        }
+                    }
+                    let again: Vec<usize> = nonces.iter().enumerate().filter(|(_, x)| log.check_and_insert(**x, t0, life).is_ok()).map(|(i, _)| i).collect();
+                    if !again.is_empty() && first.is_none() {
+                        first = Some(format!("BloomTokenLog::new({max_bytes}, 1), {n} tokens (nonce family: base {base}, stride/seed {stride}; first nonces {:?}) used once each: presented again, tokens #{again:?} are accepted a second time", &nonces[..2]));
+                    }
+                }
+            }
+        }
+        rep.evaluations += logs;
+        if let Some(w) = first {
+            rep.violation(Violation { signature: "token-accepted-twice:reuse-log-conversion".into(), what: w, replay: json!({"check":"c14","kind":"bloom_conversion"}) });
+        }
+        rep.part("reuse_log_conversion", json!({"logs": logs, "fresh_tokens_rejected_by_fingerprint_collision": collisions}));
+    }
     rep.part("acceptance_matrix", json!({"cells": total, "executed": res.len(), "validated": validated, "invalid_token_closes": invalid_token, "capped": capped}));
     if validated == 0 || invalid_token == 0 {
         machinery("vacuity guard: no token was ever validated / no INVALID_TOKEN ever produced");
